@@ -3,6 +3,7 @@ use crate::runner::Property;
 pub mod c01;
 pub mod c13;
 pub mod c14;
+pub mod c15;
 pub mod c18;
 pub mod common;
 
@@ -11,6 +12,7 @@ pub fn by_id(id: &str) -> Option<Box<dyn Property>> {
         "C01" => Box::new(c01::C01),
         "C13" => Box::new(c13::C13),
         "C14" => Box::new(c14::C14),
+        "C15" => Box::new(c15::C15),
         "C18" => Box::new(c18::C18),
         _ => return None,
     })
